@@ -132,12 +132,12 @@ func (c *Ctx) sub(lo, hi int) *Ctx {
 	return &d
 }
 
-// both runs family a on cases [0,na) and family b on [na,na+nb).
+// both runs family a on the first na cases of the range it is given and family b on the rest (nests).
 func both(a func(*Ctx) *Result, na func(string) int, b func(*Ctx) *Result) func(*Ctx) *Result {
 	return func(ctx *Ctx) *Result {
 		n := na(ctx.Tier)
-		r := a(ctx.sub(0, n))
-		r.merge(b(ctx.sub(n, ctx.N)))
+		r := a(ctx.sub(ctx.Lo, ctx.Lo+n))
+		r.merge(b(ctx.sub(ctx.Lo+n, ctx.hi())))
 		return r
 	}
 }
